@@ -199,6 +199,48 @@ func c10SrvGenFrame(t *rapid.T, known bool, i int, last bool) c10SrvFrame {
 	}
 }
 
+var c10SrvProxySig = []byte{'\r', '\n', '\r', '\n', 0x00, '\r', '\n', 'Q', 'U', 'I', 'T', '\n'}
+
+// c10SrvGenProxyPrefix draws what a peer may send first to a PROXY-protocol listener.
+func c10SrvGenProxyPrefix(t *rapid.T) ([]byte, string) {
+	v2 := func(verCmd, famProto byte, declared int, have []byte) []byte {
+		h := append([]byte(nil), c10SrvProxySig...)
+		h = append(h, verCmd, famProto, byte(declared>>8), byte(declared))
+		return append(h, have...)
+	}
+	switch rapid.IntRange(0, 6).Draw(t, "proxy-kind") {
+	case 0:
+		return []byte("PROXY TCP4 10.0.0.1 10.0.0.2 1000 2000\r\n"), "v1-valid"
+	case 1:
+		return v2(0x21, 0x11, 12, []byte{10, 0, 0, 1, 10, 0, 0, 2, 0x03, 0xe8, 0x07, 0xd0}), "v2-valid"
+	case 2:
+		return v2(0x20, 0x00, 0, nil), "v2-local"
+	case 3: // address block of every declared length around the family's size, fully present
+		fp := rapid.SampledFrom([]byte{0x11, 0x21, 0x12, 0x22, 0x31, 0x00}).Draw(t, "proxy-famproto")
+		n := rapid.IntRange(0, 40).Draw(t, "proxy-declared")
+		cmd := rapid.SampledFrom([]byte{0x21, 0x21, 0x20, 0x2f}).Draw(t, "proxy-cmd")
+		return v2(cmd, fp, n, bytes.Repeat([]byte{7}, n)), "v2-short-block"
+	case 4: // declared length beyond what is sent; the connection ends there (see caller)
+		fp := rapid.SampledFrom([]byte{0x11, 0x21}).Draw(t, "proxy-famproto")
+		n := rapid.SampledFrom([]int{12, 36, 300, 65535}).Draw(t, "proxy-declared")
+		have := rapid.IntRange(0, n-1).Draw(t, "proxy-have")
+		if have > 20 {
+			have = 20
+		}
+		return v2(0x21, fp, n, bytes.Repeat([]byte{9}, have)), "v2-truncated"
+	case 5:
+		// one v1 line of junk. It ends with its own CRLF and contains no other LF, so whatever
+		// the parser decides, the Kafka frames that follow start on a frame boundary. (A
+		// misaligned stream would make ReadFrame allocate whatever 4 junk bytes announce, up to
+		// 2 GiB - see notes; this leg must not do that to a shared machine.)
+		n := rapid.IntRange(0, 300).Draw(t, "proxy-n")
+		g := rapid.SliceOfN(rapid.SampledFrom([]byte(" \r\t0123456789.:abcTCPUNKOW46-")), n, n).Draw(t, "proxy-v1-garbage")
+		return append(append([]byte("PROXY"), g...), '\r', '\n'), "v1-garbage"
+	default:
+		return nil, "none" // a Kafka client that does not speak PROXY at all
+	}
+}
+
 // c10SrvServe runs the real connection loop on one end of a pipe; a panic that reaches the
 // top of the connection goroutine is returned.
 func c10SrvServe(srv *Server, conn net.Conn) <-chan string {
@@ -231,13 +273,18 @@ func c10SrvTrimStack(b []byte) string {
 }
 
 // c10SrvSentinel: a valid ApiVersions v0 request on a NEW connection must be answered.
-func c10SrvSentinel(srv *Server) string {
+func c10SrvSentinel(srv *Server, proxyListener bool) string {
 	cli, sv := net.Pipe()
 	done := c10SrvServe(srv, sv)
 	_ = cli.SetDeadline(time.Now().Add(30 * time.Second))
 	req := kmsg.NewPtrApiVersionsRequest()
 	req.SetVersion(0)
 	frame := kmsg.NewRequestFormatter(kmsg.FormatterClientID("vf-sentinel")).AppendRequest(nil, req, 0x5e971e1)
+	if proxyListener {
+		// a well-behaved load balancer in front: v2 LOCAL header, then the request
+		local := append(append([]byte(nil), c10SrvProxySig...), 0x20, 0x00, 0x00, 0x00)
+		frame = append(local, frame...)
+	}
 	if _, err := cli.Write(frame); err != nil {
 		_ = cli.Close()
 		return fmt.Sprintf("sentinel request could not be written: %v (%s)", err, <-done)
@@ -274,10 +321,31 @@ func TestVF_C10_Server(t *testing.T) {
 		st.Eval()
 		h := &c10SrvHandler{mode: rapid.SampledFrom([]string{"reply", "reply", "error", "none"}).Draw(t, "handler")}
 		srv := &Server{Handler: h}
-		if rapid.Bool().Draw(t, "conn-context") {
+		var prefix []byte
+		prefixKind := ""
+		switch rapid.IntRange(0, 3).Draw(t, "conn-context") {
+		case 1:
 			srv.ConnContextFunc = func(c net.Conn) (net.Conn, *ConnContext, error) {
 				return c, &ConnContext{Principal: "vf", RemoteAddr: "pipe"}, nil
 			}
+		case 2, 3:
+			// the listener as cmd/broker wires it with KAFSCALE_PROXY_PROTOCOL=true: the first
+			// client bytes go through ReadProxyProtocol inside the connection goroutine
+			srv.ConnContextFunc = func(c net.Conn) (net.Conn, *ConnContext, error) {
+				wrapped, info, err := ReadProxyProtocol(c)
+				if err != nil {
+					return c, nil, err
+				}
+				if info == nil {
+					return c, nil, errors.New("proxy protocol required but header missing")
+				}
+				cc := &ConnContext{RemoteAddr: "pipe"}
+				if !info.Local && info.SourceAddr != "" {
+					cc.RemoteAddr, cc.ProxyAddr = info.SourceAddr, info.SourceAddr
+				}
+				return wrapped, cc, nil
+			}
+			prefix, prefixKind = c10SrvGenProxyPrefix(t)
 		}
 		n := rapid.IntRange(1, 4).Draw(t, "frames")
 		var frames []c10SrvFrame
@@ -291,6 +359,15 @@ func TestVF_C10_Server(t *testing.T) {
 			if f.Close {
 				break
 			}
+		}
+		if prefixKind == "v2-truncated" {
+			// the header swallows what follows: end the connection inside it
+			frames, kinds, wire = nil, nil, nil
+		}
+		if prefixKind != "" {
+			frames = append([]c10SrvFrame{{Kind: "proxy:" + prefixKind, Wire: prefix, Close: prefixKind == "v2-truncated"}}, frames...)
+			kinds = append([]string{"proxy:" + prefixKind}, kinds...)
+			wire = append([]string{hex.EncodeToString(prefix)}, wire...)
 		}
 		// the witness line, should the process die
 		fmt.Fprintf(os.Stdout, "C10-server-frames handler=%s %s\n", h.mode, strings.Join(wire, " | "))
@@ -342,7 +419,7 @@ func TestVF_C10_Server(t *testing.T) {
 		if len(rb) != 0 {
 			st.Class("note:partial-reply-frame")
 		}
-		if msg := c10SrvSentinel(srv); msg != "" {
+		if msg := c10SrvSentinel(srv, prefixKind != ""); msg != "" {
 			if strings.Contains(msg, "deadline") || strings.Contains(msg, "timeout") {
 				inconclusive = msg
 				t.Skip(msg)
@@ -350,7 +427,10 @@ func TestVF_C10_Server(t *testing.T) {
 			t.Fatalf("after frames %v: %s\nwire=%s", kinds, msg, strings.Join(wire, " | "))
 		}
 		for _, k := range kinds {
-			if strings.HasPrefix(k, "short-payload") {
+			if strings.HasPrefix(k, "proxy:") {
+				st.Class("proxy-protocol-listener")
+				st.Class(k)
+			} else if strings.HasPrefix(k, "short-payload") {
 				st.Class("short-payload")
 			} else if strings.HasPrefix(k, "truncated-header") {
 				st.Class("truncated-header")
